@@ -11,10 +11,11 @@ import tempfile
 import time
 
 VERIF = os.path.dirname(os.path.dirname(os.path.abspath(__file__)))
-REPO = "/repo"
+REPO = os.environ.get("VERIF_REPO", "/repo")      # default: the repository itself; overridden only by bin/mutants (scratch worktrees)
+OUT = os.environ.get("VERIF_OUT", VERIF)           # where evidence/ and replay/ are written (default /verif)
 SPEC = os.path.join(VERIF, "spec")
 MODELS = os.path.join(VERIF, "models")
-BUILD = os.path.join(VERIF, ".build")
+BUILD = os.path.join(VERIF, ".build") if REPO == "/repo" else tempfile.mkdtemp(prefix="verif-build-")
 JAVA_CP = "/opt/veriftools/tla/tla2tools.jar:/opt/veriftools/tla/CommunityModules-deps.jar"
 NCPU = os.cpu_count() or 4
 NJUDGE = max(1, min(8, NCPU // 2))
@@ -30,6 +31,13 @@ class Inconclusive(Exception):
 def build_harness():
     os.makedirs(BUILD, exist_ok=True)
     hdir = os.path.join(VERIF, "harness")
+    if REPO != "/repo":       # private copy of the harness module whose replace directive points at the scratch worktree
+        hcopy = os.path.join(BUILD, "harness-src")
+        shutil.rmtree(hcopy, ignore_errors=True)
+        shutil.copytree(hdir, hcopy)
+        gm = open(os.path.join(hcopy, "go.mod")).read().replace("=> /repo", "=> " + REPO)
+        open(os.path.join(hcopy, "go.mod"), "w").write(gm)
+        hdir = hcopy
     shutil.copyfile(os.path.join(REPO, "go.sum"), os.path.join(hdir, "go.sum"))
     for cmd in sorted(os.listdir(os.path.join(hdir, "cmd"))):
         p = subprocess.run(["go", "build", "-tags", "verif", "-o", os.path.join(BUILD, cmd), "./cmd/" + cmd],
@@ -267,10 +275,10 @@ def extract_trace(trace_path, l):
 
 
 def save_replay(pid, bare_ops, info):
-    os.makedirs(os.path.join(VERIF, "replay"), exist_ok=True)
+    os.makedirs(os.path.join(OUT, "replay"), exist_ok=True)
     body = "\n".join(json.dumps(o, sort_keys=True) for o in bare_ops) + "\n"
     hsh = hashlib.sha1(body.encode()).hexdigest()[:12]
-    path = os.path.join(VERIF, "replay", "%s-%s.ndjson" % (pid, hsh))
+    path = os.path.join(OUT, "replay", "%s-%s.ndjson" % (pid, hsh))
     with open(path, "w") as f:
         f.write(body)
     with open(path + ".info.json", "w") as f:
